@@ -233,7 +233,7 @@ theorem keysDisjoint_count {l : List (Part D)} (h : KeysDisjoint l) (k : Int) :
     · simp only [List.filter_cons, hm, decide_false, Bool.false_eq_true, if_false]
       exact ih hd.2
 
-/-! ### `update_partitions()` on at most two partitions does separate the intervals -/
+/-! ### the pinned-tree `update_partitions()` separates the intervals on at most two partitions only -/
 
 theorem length_insertPart (p : Part D) (l : List (Part D)) : (insertPart p l).length = l.length + 1 := by
   induction l with
@@ -245,12 +245,12 @@ theorem length_sortParts (l : List (Part D)) : (sortParts l).length = l.length :
   | nil => rfl
   | cons q qs ih => simp [sortParts, length_insertPart, ih]
 
-theorem mergeAdj_short_disjoint (l : List (Part D)) (h : l.length ≤ 2) : KeysDisjoint (mergeAdj l) := by
+theorem mergeAdjOld_short_disjoint (l : List (Part D)) (h : l.length ≤ 2) : KeysDisjoint (mergeAdjOld l) := by
   match l, h with
   | [], _ => exact List.Pairwise.nil
-  | [p], _ => simp [mergeAdj, KeysDisjoint]
+  | [p], _ => simp [mergeAdjOld, KeysDisjoint]
   | [a, b], _ =>
-    simp only [mergeAdj]
+    simp only [mergeAdjOld]
     split
     · simp [KeysDisjoint]
     · rename_i hge
@@ -287,15 +287,20 @@ theorem refreshGo_stop (x : V) (l : List (Part D)) (h : (refreshGo x 0 l).2 = tr
       simp only [h1, Bool.false_eq_true, if_false] at h
       rw [refreshGo_flag_pos x 1 ps (Nat.succ_pos _)] at h; cases h
 
-theorem updateParts_short_disjoint {a : VP D} {x : V} (hv : a.var = some x)
-    (h : (refreshGo x 0 a.parts).1.length ≤ 2) : KeysDisjoint (updateParts a).parts := by
-  rw [updateParts_some hv]
+theorem updatePartsOld_some {a : VP D} {x : V} (hv : a.var = some x) :
+    updatePartsOld a = if (refreshGo x 0 a.parts).2 then ⟨a.var, (refreshGo x 0 a.parts).1⟩
+      else ⟨a.var, mergeAdjOld (sortParts (refreshGo x 0 a.parts).1)⟩ := by
+  unfold updatePartsOld; rw [hv]
+
+theorem updatePartsOld_short_disjoint {a : VP D} {x : V} (hv : a.var = some x)
+    (h : (refreshGo x 0 a.parts).1.length ≤ 2) : KeysDisjoint (updatePartsOld a).parts := by
+  rw [updatePartsOld_some hv]
   split
   · rename_i hstop
     obtain ⟨p, hp⟩ := refreshGo_stop x a.parts hstop
     show KeysDisjoint (refreshGo x 0 a.parts).1
     rw [hp]; simp [KeysDisjoint]
-  · exact mergeAdj_short_disjoint _ (by rw [length_sortParts]; exact h)
+  · exact mergeAdjOld_short_disjoint _ (by rw [length_sortParts]; exact h)
 
 /-! ### reflexivity of `operator<=` on separated intervals -/
 
